@@ -4,7 +4,7 @@
    [prioritized_try] in ONE entry, IPv4 first then IPv6, each a well-formed CIDR of that family that
    overlaps no pod CIDR of a cached node; the PATCH goes to the processed node only; a failed or
    partial reservation never reaches a PATCH. *)
-From NIPAM Require Import Sys Alloc_proofs Inv_proofs Pool_proofs World_proofs Path_proofs Term_proofs.
+From NIPAM Require Import Sys Alloc_proofs Inv_proofs Pool_proofs World_proofs Path_proofs Term_proofs Sel Lbl Keys_proofs.
 Open Scope N_scope.
 
 (* what allocate_cidr hands out is a well-formed CIDR of the requested family *)
@@ -104,3 +104,17 @@ Theorem C02_every_assignment_of_every_history :
     end.
 Proof. intros po lab ops o w' ob H w Hs nm cs out He. exact (history_assignment_ok po lab ops o w' ob H Hs nm cs out He). Qed.
 Print Assumptions C02_every_assignment_of_every_history.
+
+(* ... and with the model of the labels package in place of the parse oracle (Lbl.v, Keys_proofs.v): in every history in which
+   ClusterCIDR objects carry the key nodeSelectorKey computes from their selector, every PATCH carries blocks of an entry that
+   is not terminating and is filed under the key of a selector EVERY requirement of which the node's labels satisfy (or under
+   the catch-all default key): "eligible" in terms of the selector's own requirements, with no parser in the statement *)
+Theorem C02_every_assignment_respects_the_selectors_own_requirements :
+  forall lab ops o w' ob, Forall wf_op ops -> Forall op_keys_computed ops ->
+  let w := run sel_parse lab init_world ops in
+  step sel_parse lab w o = (w', ob) ->
+  forall nm cs out, In (FxPatch nm cs out) (ob_fx ob) ->
+  exists m node p e, w_ctl w = Some m /\ nm = n_name node /\ get_entry m p = Some e /\ cc_term e = false /\
+    exists rs, selector_key rs = Some (fst p) /\ (fst p = default_key \/ forallb (req_matches (n_labels node)) rs = true).
+Proof. exact every_assignment_respects_the_selectors_requirements. Qed.
+Print Assumptions C02_every_assignment_respects_the_selectors_own_requirements.
